@@ -165,6 +165,9 @@ func Listen(network, address string) (net.Listener, error) {
 	if err != nil {
 		return nil, &net.OpError{Op: "listen", Net: network, Err: err}
 	}
+	if port == "" {
+		port = "0" // as the real net.Listen: an empty port means "any port"
+	}
 	pn, err := strconv.Atoi(port)
 	if err != nil || pn < 0 || pn > 65535 {
 		return nil, &net.OpError{Op: "listen", Net: network, Err: &net.AddrError{Err: "invalid port", Addr: port}}
@@ -176,9 +179,14 @@ func Listen(network, address string) (net.Listener, error) {
 			return nil, &net.OpError{Op: "listen", Net: network, Err: &net.DNSError{Err: "no such host", Name: host, IsNotFound: true}}
 		}
 	}
-	addr := &net.TCPAddr{IP: ip, Port: pn}
 	raceDisable()
 	w.mu.Lock()
+	if pn == 0 {
+		// ephemeral port
+		w.nListen++
+		pn = 50000 + w.nListen
+	}
+	addr := &net.TCPAddr{IP: ip, Port: pn}
 	for l := w.listeners; l != nil; l = l.next {
 		if !l.closed && l.addr.Port == pn && (l.addr.IP == nil || ip == nil || l.addr.IP.Equal(ip)) {
 			w.mu.Unlock()
